@@ -318,6 +318,8 @@ pub struct World {
     pending_burst: Option<u32>,
     /// (simulated process, virtual time) of every accept of a simulated connection
     pub accept_log: Vec<(usize, u64)>,
+    /// simulated peer address of every accepted connection, in order
+    pub accept_peers: Vec<SocketAddr>,
     /// consecutive would-block writes by sozu since its last epoll_wait (busy-loop damping)
     eagain_streak: u32,
     pub spin_breaks: u64,
@@ -364,6 +366,7 @@ impl World {
             procs: vec![ProcSlot { name: "p0".into(), state: P_RUNNING, ..Default::default() }],
             pending_burst: None,
             accept_log: Vec::new(),
+            accept_peers: Vec::new(),
             eagain_streak: 0,
             spin_breaks: 0,
         })
